@@ -264,7 +264,8 @@ struct Limits
   X(8, 4, 3, 40, 24, 2, false) \
   X(8, 4, 3, 40, 24, 2, true) \
   X(64, 8, 8, 200, 64, 4, false) \
-  X(64, 8, 8, 200, 64, 4, true)
+  X(64, 8, 8, 200, 64, 4, true) \
+  X(64, 8, 60, 100, 64, 4, false)
 
 // response-receiver configurations: status, reason, header number, header length, line, ws, strict
 #define RESP_CONFIGS(X) \
